@@ -14,6 +14,7 @@ import (
 
 	"filippo.io/age/internal/bech32"
 	"filippo.io/age/internal/format"
+	"filippo.io/age/internal/verifhook"
 	"golang.org/x/crypto/chacha20poly1305"
 	"golang.org/x/crypto/curve25519"
 	"golang.org/x/crypto/hkdf"
@@ -62,6 +63,7 @@ func ParseX25519Recipient(s string) (*X25519Recipient, error) {
 }
 
 func (r *X25519Recipient) Wrap(fileKey []byte) ([]*Stanza, error) {
+	verifhook.Point("x25519.wrap")
 	ephemeral := make([]byte, curve25519.ScalarSize)
 	if _, err := rand.Read(ephemeral); err != nil {
 		return nil, err
@@ -157,6 +159,7 @@ func (i *X25519Identity) Unwrap(stanzas []*Stanza) ([]byte, error) {
 }
 
 func (i *X25519Identity) unwrap(block *Stanza) ([]byte, error) {
+	verifhook.Point("x25519.unwrap")
 	if block.Type != "X25519" {
 		return nil, ErrIncorrectIdentity
 	}
